@@ -1,4 +1,4 @@
-\* thorough: 3 nodes, literal
+\* thorough: 3 tune2fs-like nodes, no crash, literal
 SPECIFICATION Spec
 CONSTANTS
   Nodes = {1, 2, 3}
@@ -10,7 +10,7 @@ CONSTANTS
   Upd = 3
   IvalSet = {1}
   TickSet = {1}
-  MaxCrash = 1
+  MaxCrash = 0
   AllowCorrupt = FALSE
   DevNonAtomic = TRUE
   DevSeqCollision = FALSE
